@@ -5,7 +5,7 @@
    Only statements, `exact`, Print Assumptions. *)
 From Coq Require Import ZArith List Bool.
 From BL Require Import Base.Ops Base.Laws Model.Solver Model.SolverArray Proofs.SpecProofs Proofs.Plumbing
-  Proofs.C03Proofs Proofs.ArrayRefine.
+  Proofs.C03Proofs Proofs.C11Proofs Proofs.ArrayRefine.
 Import ListNotations.
 
 (* REFINEMENT.  For every well-formed request that is accepted — every parity of nx, ny, px, py, every
@@ -99,6 +99,19 @@ Theorem C11_array_footprint_mass : forall (O : Ops), Laws O -> forall (a : args 
   asum O (field_arr O a g snd) (g_ny O g) (g_nx O g) k = c1 O.
 Proof. exact array_footprint_mass. Qed.
 
+(* transfer of C11_lowpass: an entry of the shifted truncated spectra (the arrays that are re-embedded and transformed
+   back) retained under two mode counts is the same number under both *)
+Theorem C11_array_lowpass : forall (O : Ops), Laws O -> forall (a : args O) (g : geom O) nlx' nly' sel k tx ty tx' ty',
+  wf O a -> geometry O a = inl g ->
+  geometry O (with_modes O a nlx' nly') = inl (geom_modes O g nlx' nly') ->
+  (tx < g_nlx O g)%nat -> (ty < g_nly O g)%nat -> (tx' < nlx')%nat -> (ty' < nly')%nat ->
+  fftfreq (g_nlx O g) tx = fftfreq nlx' tx' -> fftfreq (g_nly O g) ty = fftfreq nly' ty' ->
+  ar_at O (apply_shift O a g (spec_arr O a g sel)) (Z.of_nat k) (Z.of_nat ty) (Z.of_nat tx)
+  = ar_at O (apply_shift O (with_modes O a nlx' nly') (geom_modes O g nlx' nly')
+                         (spec_arr O (with_modes O a nlx' nly') (geom_modes O g nlx' nly') sel))
+          (Z.of_nat k) (Z.of_nat ty') (Z.of_nat tx').
+Proof. exact array_lowpass. Qed.
+
 (* non-vacuity: under any lawful Ops a concrete request with an odd nx (2 x 3 source, modes (2, 2), halo 0)
    satisfies the hypotheses of C11_array_refines_spec *)
 Example C11_array_nonvacuous : forall (O : Ops), Laws O ->
@@ -116,4 +129,5 @@ Goal True. idtac "THEOREM C11_array_slices_in_range". Abort. Print Assumptions C
 Goal True. idtac "THEOREM C11_array_flux_sum". Abort. Print Assumptions C11_array_flux_sum.
 Goal True. idtac "THEOREM C11_array_conc_sum". Abort. Print Assumptions C11_array_conc_sum.
 Goal True. idtac "THEOREM C11_array_footprint_mass". Abort. Print Assumptions C11_array_footprint_mass.
+Goal True. idtac "THEOREM C11_array_lowpass". Abort. Print Assumptions C11_array_lowpass.
 Goal True. idtac "THEOREM C11_array_nonvacuous". Abort. Print Assumptions C11_array_nonvacuous.
